@@ -102,6 +102,7 @@ class Contract:
         self.defaults = d.get("defaults", {})     # parameter defaults (must equal the source's; checked structurally)
         self.inv_exclude_pre = d.get("inv_exclude_pre", [])   # invariant clauses (by name prefix) not needed at entry
         self.assume_entry = d.get("assume_entry", {})
+        self.allocates = d.get("allocates", False)   # the call may create objects (other than a returns_fresh result): the allocation ghost grows monotonically
         self.returns_fresh = d.get("returns_fresh", False)   # the result is an object that did not exist before the call
         self.local_sorts = d.get("local_sorts", {})   # sorts of locals that start as empty containers
         self.probe = d.get("probe", False)         # known-finding probe: a variant verified WITHOUT a usage assumption
@@ -233,6 +234,11 @@ class Ctx:
 # symbolic state
 # =================================================================================================
 
+class Snap(tuple):
+    """(heap, globals) of a state at some point, plus the allocation ghost at that point"""
+    alloc = None
+
+
 class State:
     def __init__(self):
         self.pc = []            # list of z3 Bool: path condition / assumptions
@@ -266,7 +272,9 @@ class State:
         return s
 
     def snapshot(self):
-        return (dict(self.heap), dict(self.globals))
+        sn = Snap((dict(self.heap), dict(self.globals)))
+        sn.alloc = self.alloc
+        return sn
 
     def assume(self, f):
         if not z3.is_true(f):
@@ -430,6 +438,9 @@ class Task:
         w = vref(z3.Const(fresh_name(f"wrap.{sort.cls}"), Ref), sort.cls)
         st.assume(w.z != null)
         st.new_object(w.z)
+        st.assume(z3.Not(z3.Select(st.alloc, w.z)))      # taking a bound method / storing a callable creates a new object
+        st.alloc = z3.Store(st.alloc, w.z, z3.BoolVal(True))
+        st.born = st.born + [w.z]
         link = co["link"]
         if "methods" in co:
             if isinstance(val, VFunc) and val.contract in co["methods"] and val.bound_self is not None:
@@ -544,6 +555,7 @@ class Task:
         for k, t in c.assume_entry.items():
             st.assume(self.spec_bool(st, t, env, self_cls=self.receiver))
         self.old = st.snapshot()
+        self.old_alloc = st.alloc
         self.old_locals = dict(st.locals)
         for g, t in c.ghost_entry.items():
             gv = self.spec(st, t, env, self_cls=self.receiver)
@@ -1106,7 +1118,7 @@ class Task:
         if called is not None:
             for cname in called:
                 self.havoc_contract_frame(st, self.ctx.contracts[cname])
-            if any(self.ctx.contracts[cn].ctor or self.ctx.contracts[cn].returns_fresh for cn in called):
+            if any(self.ctx.contracts[cn].ctor or self.ctx.contracts[cn].returns_fresh or self.ctx.contracts[cn].allocates for cn in called):
                 na = z3.Const(fresh_name("ALLOC"), z3.ArraySort(Ref, z3.BoolSort()))
                 xq = z3.Const(fresh_name("aq"), Ref)
                 st.assume(z3.ForAll([xq], z3.Implies(z3.Select(st.alloc, xq), z3.Select(na, xq))))
@@ -2209,6 +2221,11 @@ class Task:
 
         def post(s, raised, exn=None):
             self.havoc_modifies(s, c.modifies, self_v, env=env)
+            if c.allocates:
+                na = z3.Const(fresh_name("ALLOC"), z3.ArraySort(Ref, z3.BoolSort()))
+                xq = z3.Const(fresh_name("aq"), Ref)
+                s.assume(z3.ForAll([xq], z3.Implies(z3.Select(s.alloc, xq), z3.Select(na, xq))))
+                s.alloc = na
             e2 = dict(env)
             if raised:
                 e2["exc"] = vstr(exn if isinstance(exn, str) else "UserBaseException")
@@ -2652,7 +2669,11 @@ class SpecEval:
             finally:
                 self.in_old = prev
         if name == "allocated":
-            return vbool(z3.Select(self.st.alloc, self.ev(n.args[0]).z))
+            # old(allocated(o)): o existed when the function was entered
+            oa = getattr(self.old, "alloc", None) if self.in_old else None      # old(allocated(o)): at function entry / at the time of the call whose postcondition this is
+            if self.in_old and oa is None:
+                oa = getattr(self.t, "old_alloc", None)
+            return vbool(z3.Select(oa if oa is not None else self.st.alloc, self.ev(n.args[0]).z))
         if name == "entry":
             return self.t.old_locals[n.args[0].id]
         if name in ("heap_at_iter_start", "local_at_iter_start"):
